@@ -261,7 +261,13 @@ def match_packages(
         # with the all-arches candidates
         allarches_kw: list[str] = []
         if allarches and stable and filter_arch:
-            allarches_kw = sort_keywords(suggested_keywords(repo, pkg, stable=True))
+            # the candidates come off the ebuilds, which may still carry an
+            # arch the repo dropped; only ever request what the repo knows
+            allarches_kw = [
+                k
+                for k in sort_keywords(suggested_keywords(repo, pkg, stable=True))
+                if k in valid_arches
+            ]
 
         if only_new:
             keywords = [
